@@ -66,6 +66,11 @@ var invalidClasses = []invalidClass{
 	{"kind:unsafe.Pointer", func(r *gen.Rand) (reflect.Type, string) { return reflect.TypeOf(unsafe.Pointer(nil)), tagOf("1,default,i64") }, false},
 	{"kind:[]uint16", func(r *gen.Rand) (reflect.Type, string) { return reflect.TypeOf([]uint16(nil)), tagOf("1,default,list<i16>") }, false},
 	{"kind:map-uint-value", func(r *gen.Rand) (reflect.Type, string) { return reflect.TypeOf(map[string]uint32(nil)), tagOf("1,default,map<string:i32>") }, false},
+	{"slice:named-uint8-unannotated", func(r *gen.Rand) (reflect.Type, string) { return reflect.TypeOf([]zoo.Octet(nil)), tagOf("1,default") }, false},
+	{"slice:named-uint8-as-binary", func(r *gen.Rand) (reflect.Type, string) { return reflect.TypeOf([]zoo.Octet(nil)), tagOf("1,default,binary") }, false},
+	{"slice:named-uint8-as-list", func(r *gen.Rand) (reflect.Type, string) { return reflect.TypeOf([]zoo.Octet(nil)), tagOf("1,default,list<i8>") }, false},
+	{"slice:named-uint8-map-value", func(r *gen.Rand) (reflect.Type, string) { return reflect.TypeOf(map[string][]zoo.Octet(nil)), tagOf("1,default") }, false},
+	{"kind:named-uint8", func(r *gen.Rand) (reflect.Type, string) { return reflect.TypeOf(zoo.Octet(0)), tagOf("1,default,i8") }, false},
 	{"slice:unannotated", func(r *gen.Rand) (reflect.Type, string) { return reflect.TypeOf([]int32(nil)), tagOf("1,default") }, false},
 	{"slice:unannotated-nested", func(r *gen.Rand) (reflect.Type, string) { return reflect.TypeOf(map[string][]int32(nil)), tagOf("1,default") }, false},
 	{"slice:empty-annotation", func(r *gen.Rand) (reflect.Type, string) { return reflect.TypeOf([]string(nil)), tagOf("1,default,") }, false},
